@@ -9,8 +9,8 @@ package main
 // itself through a back-reference (`x79 x51 x91`), the walk never ends and the
 // stack overflow is fatal, not a recoverable panic (seeded C14n: a recursive
 // `hashableKey` over list-valued map keys).  Obligation per package function
-// the decode entry points reach that lies on a cycle of static in-package
-// calls: a read of the input stream is reachable from it (it belongs to the
+// the decode entry points reach that lies on a cycle of in-package calls
+// (call graph: static calls and resolved function values): a read of the input stream is reachable from it (it belongs to the
 // stream-read closure).  Necessary, not sufficient: it does not prove that
 // every turn of the cycle consumes input (C14.R3 / R7 cover the loops).
 
@@ -35,11 +35,24 @@ func (w *World) ruleRecursionReadsStream(r *Report, rule string, min int) {
 	for _, f := range fns {
 		in[f] = true
 	}
-	// onCycle(f): f reaches itself through static in-package calls
+	// edges: the call-graph callees inside the package (static calls, and the
+	// resolved targets of function values, method values and interface calls),
+	// and the literals a function makes (they run on its behalf)
+	edges := func(f *ssa.Function) []*ssa.Function {
+		var out []*ssa.Function
+		for _, c := range w.cgCallees(f) {
+			if w.inPkg(c) {
+				out = append(out, c)
+			}
+		}
+		out = append(out, f.AnonFuncs...)
+		return out
+	}
+	// onCycle(f): f reaches itself through in-package calls
 	onCycle := func(f *ssa.Function) bool {
 		seen := map[*ssa.Function]bool{}
 		var stack []*ssa.Function
-		stack = append(stack, w.staticPkgCallees(f)...)
+		stack = append(stack, edges(f)...)
 		for len(stack) > 0 {
 			g := stack[len(stack)-1]
 			stack = stack[:len(stack)-1]
@@ -50,7 +63,7 @@ func (w *World) ruleRecursionReadsStream(r *Report, rule string, min int) {
 				continue
 			}
 			seen[g] = true
-			stack = append(stack, w.staticPkgCallees(g)...)
+			stack = append(stack, edges(g)...)
 		}
 		return false
 	}
